@@ -310,7 +310,7 @@ class BuildAssembly(Assembly):
                 continue
 
             build_scffld = hap_name_scaffold.setdefault(
-                (scffld.haplotype, scffld.name),
+                (scffld.haplotype, scffld.tag, scffld.name),
                 Scaffold(
                     scffld.name,
                     tag=scffld.tag,
